@@ -359,6 +359,14 @@ def _conds_key(conds):
     return alpha(('tuple', tuple(('tuple', (c, ('const', pol))) for c, pol in cs)))
 
 
+def _conds_logic_key(conds):
+    """the same path condition as a boolean function of its atoms (if/elif chains, nested ifs and merged conditions coincide)"""
+    from ..refspec import cond_key
+    cs = [(c, pol) for c, pol in conds if not (isinstance(c, tuple) and c and c[0] in ('inloop', 'handler'))]
+    wrapped = alpha(('tuple', tuple(c for c, _ in cs)))
+    return cond_key([(c, pol) for c, (_, pol) in zip(wrapped[1], cs)])
+
+
 def rule_siblings(ctx):
     mod = 'mchap.assemble.structural.'
     LAB = ('param', 'labels')
@@ -384,13 +392,14 @@ def rule_siblings(ctx):
         ctx.need(emits, f"{mod + gen}: option stores not found")
         kc = _conds_key(incs[0].conds)
         kgs = {_conds_key(ev.conds) for ev in emits}
-        ctx.check(kgs == {kc}, 'R01.4/sibling', con, "options are emitted under exactly the guard chain under which the counter counts",
+        same = kgs == {kc} or {_conds_logic_key(ev.conds) for ev in emits} == {_conds_logic_key(incs[0].conds)}
+        ctx.check(same, 'R01.4/sibling', con, "options are emitted under exactly the guard chain under which the counter counts",
                   f"option generator and option counter disagree on when an option exists:\n   generator: {[show(k)[:300] for k in kgs]}\n   counter:   {show(kc)[:300]}", fc.where(incs[0].node))
         # the generator advances its write index once per emitted option, under the same guards, and returns options[0:index]
         ginc = [ev for ev in rg.events if ev.kind == 'augname' and ev.data[1] == 'Add' and ev.data[2] == ('const', 1)
                 and any(isinstance(c[0], tuple) and c[0][0] == 'inloop' for c in ev.conds)]
         slot = {ev.data[1][1][0] for ev in emits}
-        good = len(ginc) == 1 and {_conds_key(ginc[0].conds)} == kgs and len(slot) == 1 and next(iter(slot))[0] == 'carried' \
+        good = len(ginc) == 1 and ({_conds_key(ginc[0].conds)} == kgs or {_conds_logic_key(ginc[0].conds)} == {_conds_logic_key(ev.conds) for ev in emits}) and len(slot) == 1 and next(iter(slot))[0] == 'carried' \
             and ginc[0].data[3] == next(iter(slot))
         grets = [collapse(ev.data[0], {}) for ev in rg.events if ev.kind == 'return']
         good = good and len(grets) == 1 and grets[0][0] == 'idx' and grets[0][2][0] == 'slice' and grets[0][2][1] in (None, ('const', 0)) \
